@@ -1040,4 +1040,125 @@ theorem ends_exactly_once_full (env : Env) (f : Faults) (b : BodyX) (ho : opened
       exact List.length_pos_of_mem (List.mem_filter.mpr ⟨hx1, hx2⟩)
     omega
 
+/-! ### round 5c: the session of the body (clauses statement-outside-transaction, raw-db-refused,
+nested-transaction-refused, statement-error-reaches-body, body-gets-callers-context) -/
+
+theorem outsideTx_badPrefix (w : Wiring) (st : Option Nat) (n : Nat) (l : List Ev) :
+    outsideTx st (tagLog w (badPrefix n l)) = outsideTx st (tagLog w l) := by
+  induction n with
+  | zero => rfl
+  | succ n ih => simpa [badPrefix, tagLog, outsideTx] using ih
+
+theorem outsideTx_stmts (w : Wiring) (evs rest : List Ev) (h : evs.all isStmt = true) :
+    outsideTx (some 0) (tagLog w (evs ++ rest)) =
+      (if w.stmtConn = 0 then [] else evs) ++ outsideTx (some 0) (tagLog w rest) := by
+  induction evs with
+  | nil => simp
+  | cons e evs ih =>
+    simp only [List.all_cons, Bool.and_eq_true] at h
+    have ih' := ih h.2
+    simp only [tagLog] at ih' ⊢
+    cases e <;> simp [isStmt] at h <;>
+      (simp only [List.cons_append, List.map_cons, outsideTx, ih']
+       by_cases hc : w.stmtConn = 0
+       · simp [hc]
+       · have hc' : ¬ (0 = w.stmtConn) := fun h => hc h.symm
+         simp [hc, hc'])
+
+theorem outsideTx_refused (w : Wiring) (f : Faults) : outsideTx none (tagLog w (refusedBegins f)) = [] := by
+  unfold refusedBegins
+  split <;> rw [outsideTx_badPrefix] <;> simp [tagLog, outsideTx]
+
+/-- the log of every run has the shape the connection argument needs -/
+theorem logX_shape (env : Env) (f : Faults) (b : BodyX) :
+    (∃ n evs e, (transactCtxX env f b).log = badPrefix n (.begin true :: (evs ++ [e])) ∧
+        evs.all isStmt = true ∧ isEnd e = true ∧ evs = (runBody b.base).1) ∨
+    (transactCtxX env f b).log = refusedBegins f ∨ (transactCtxX env f b).log = [] := by
+  have hall := runBody_all b.base
+  cases h : b.reaches f
+  · have hnr : transactCtxX env f b = transactCtx env f b.base := by
+      rw [transactCtx_is_wrapped_transact]
+      unfold transactCtxX transactFnX transactFn
+      rw [transactOnConnX_not_reached f b h]
+    rw [hnr, log_shape_ctx]
+    cases ho : opened env f
+    · cases env.admitted <;> simp
+    · refine Or.inl ⟨f.badConn, (runBody b.base).1, endEvent f b.base, by simp, hall, ?_, rfl⟩
+      unfold endEvent; split <;> rfl
+  · have hs : b.raw.isSome = true := by
+      unfold BodyX.reaches at h; simp only [Bool.and_eq_true] at h; exact h.1.1
+    obtain ⟨r, hr⟩ := Option.isSome_iff_exists.mp hs
+    have hx := transactOnConnX_reached f b r hr h
+    unfold transactCtxX brkDo transactFnX
+    cases h1 : env.ctxDone <;> cases h2 : env.brkAllow <;> cases h3 : env.connOk <;> simp
+    refine Or.inl ⟨f.badConn, (runBody b.base).1, rawEv r, by rw [hx]; simp [rawRun], by simpa using hall, ?_, rfl⟩
+    unfold rawEv; split <;> rfl
+
+/-- **No statement of the body runs outside the transaction** — with the session wiring of the code (the body is
+handed the transaction's session, whose statement methods use its own `t.Tx`) every statement reaches the driver on
+the connection that holds the open transaction, between Begin and the one end; for every environment, fault plan
+and body, incl. bodies that end the raw Tx themselves.  With ANY other wiring (the body handed a session on the
+pool, or a statement method that goes to the pool) exactly the body's statements run outside it. -/
+theorem statements_inside_the_transaction (w : Wiring) (env : Env) (f : Faults) (b : BodyX) :
+    (w.stmtConn = 0 → outsideTx none (tagLog w (transactCtxX env f b).log) = []) ∧
+    outsideTx none (tagLog codeWiring (transactCtxX env f b).log) = [] ∧
+    (w.stmtConn ≠ 0 → opened env f = true → b.raw = none →
+      outsideTx none (tagLog w (transactCtxX env f b).log) = (runBody b.base).1) := by
+  have key : ∀ w : Wiring, ∀ n evs e, evs.all isStmt = true → isEnd e = true →
+      outsideTx none (tagLog w (badPrefix n (.begin true :: (evs ++ [e])))) = if w.stmtConn = 0 then [] else evs := by
+    intro w n evs e hs he
+    rw [outsideTx_badPrefix]
+    have : outsideTx none (tagLog w (.begin true :: (evs ++ [e]))) = outsideTx (some 0) (tagLog w (evs ++ [e])) := by
+      simp [tagLog, outsideTx]
+    rw [this, outsideTx_stmts w evs [e] hs]
+    cases e <;> simp [isEnd, isCommit, isRollback] at he <;> simp [tagLog, outsideTx]
+  have hcode : ∀ w : Wiring, w.stmtConn = 0 → outsideTx none (tagLog w (transactCtxX env f b).log) = [] := by
+    intro w hw
+    rcases logX_shape env f b with ⟨n, evs, e, hl, hs, he, _⟩ | hl | hl
+    · rw [hl, key w n evs e hs he]; simp [hw]
+    · rw [hl]; exact outsideTx_refused w f
+    · rw [hl]; rfl
+  refine ⟨hcode w, hcode codeWiring rfl, ?_⟩
+  intro hw ho hr
+  have hb : b = { base := b.base } := by cases b; simp_all
+  rw [hb, x_agrees_without_raw_end, log_shape_ctx, ho]
+  simp only [if_true]
+  have hend : isEnd (endEvent f b.base) = true := by unfold endEvent; split <;> rfl
+  rw [key w _ _ _ (runBody_all b.base) hend]; simp [hw]
+
+/-- the body handed a session on the pool (mutation M23): its statement runs outside the transaction -/
+example : outsideTx none (tagLog { codeWiring with bodySession := .pool }
+    (transactCtx envOk { begin := true, commit := true, rollback := true } { stmts := [⟨.exec, false, false⟩], fin := .ok }).log)
+    = [.exec 0 true] := by decide
+
+/-- **What a connection made from the body's session answers** (code wiring): `Transact[Ctx]` on it makes no
+driver call, does not run its body and yields an error — exactly the model's `SK.nest` statement; `RawDB()` yields
+an error and no *sql.DB.  A wiring that does not refuse begins a SECOND transaction inside the first: begins-once is
+violated (mutation M12). -/
+theorem session_conn_refuses :
+    codeWiring.nestOutcome = ([], true, false) ∧ codeWiring.rawDBOutcome = (true, false) ∧
+    (∀ c i p, stmtEvAt c i ⟨.nest, true, p⟩ = codeWiring.nestOutcome.1 ∧
+              (Stmt.failingAt c i ⟨.nest, true, p⟩) = codeWiring.nestOutcome.2.1) ∧
+    (∀ w : Wiring, w.nestRefused = false →
+      beginsOnce { log := .begin true :: (w.nestOutcome.1 ++ [.commit true]), runs := 1, body := .nil, ret := none }
+        = false) := by
+  refine ⟨rfl, rfl, ?_, ?_⟩
+  · intro c i p; simp [stmtEvAt, Stmt.failingAt, codeWiring, Wiring.nestOutcome]
+  · intro w hw; simp [Wiring.nestOutcome, hw, beginsOnce, count, List.filter_cons]
+
+/-- **A failed statement's error is seen by the body, and the context a statement reaches database/sql with is the
+entry point's**: with the code wiring a statement made through a …Ctx method under `TransactCtx(c, …)` carries `c`
+(so database/sql refuses it once `c` is done: the model's `cancelAt`), under `Transact` and through a context-less
+method `context.Background()` (never refused). -/
+theorem statement_context_and_errors :
+    (∀ failed, codeWiring.stmtErrSeen failed = failed) ∧
+    codeWiring.ctxAtDriver .callers true = .callers ∧
+    codeWiring.ctxAtDriver .background true = .background ∧
+    (∀ entry, codeWiring.ctxAtDriver entry false = .background) ∧
+    (∀ w : Wiring, w.bodyCtx = .background → w.ctxAtDriver .callers true = .background) := by
+  refine ⟨?_, rfl, rfl, ?_, ?_⟩
+  · intro f; cases f <;> rfl
+  · intro e; cases e <;> rfl
+  · intro w h; simp [Wiring.ctxAtDriver, composeCtx, h]
+
 end GoZero.C14.Props
